@@ -349,43 +349,57 @@ class CFG:
         return getattr(self.nodes[nid].ast, "lineno", 0)
 
 
-# ---------------------------------------------------------------------- boolean-flag refinement
+# ---------------------------------------------------------------------- flag / sentinel refinement
 
 
 def _flag_tests(test):
-    """(flag name, polarity on the T branch) if `test` is `flag` / `not flag`"""
+    """(name, kind, arg, polarity on the T branch): kind "truth" for `v` / `not v`, kind "is" for `v is X` / `v is not X`
+    with X None or a non-local name (a sentinel)"""
     if isinstance(test, ast.Name):
-        return test.id, True
-    if isinstance(test, ast.UnaryOp) and isinstance(test.op, ast.Not) and isinstance(test.operand, ast.Name):
-        return test.operand.id, False
+        return test.id, "truth", None, True
+    if isinstance(test, ast.UnaryOp) and isinstance(test.op, ast.Not):
+        r = _flag_tests(test.operand)
+        return (r[0], r[1], r[2], not r[3]) if r is not None else None
+    if isinstance(test, ast.Compare) and len(test.ops) == 1 and isinstance(test.left, ast.Name) and isinstance(test.ops[0], (ast.Is, ast.IsNot)):
+        c = test.comparators[0]
+        arg = "None" if (isinstance(c, ast.Constant) and c.value is None) else c.id if isinstance(c, ast.Name) else None
+        if arg is not None:
+            return test.left.id, "is", arg, isinstance(test.ops[0], ast.Is)
     return None
 
 
+OTHER = "<other>"
+
+
 class FlagCFG:
-    """Path queries on the product of a CFG with the values of its local boolean *flags*.
+    """Path queries on the product of a CFG with the values of its local *flags*.
 
-    A flag is a local name that is only ever assigned the constants True / False (no parameter, no loop
-    target, no augmented assignment).  Tests of the form `flag` / `not flag` are then decided along each
-    path, which removes the infeasible paths of the common idiom
+    A flag is a local name (no parameter, no loop target, no augmented assignment) that is tested as `v`, `not v`,
+    `v is X` or `v is not X` and is somewhere assigned a constant True / False / None, a sentinel (a name that is not
+    local to the function, e.g. a module-level `_MISSING = object()`) or a copy of another flag.  Any other value
+    assigned to it is tracked as "something else", which is assumed not to be a sentinel object (sentinels are private
+    to the module) -- it may be None.  Tests on flags are then decided along each path, which removes the infeasible
+    paths of the idioms
 
-        found = False                      for x in xs:
-        for x in xs:                           if p(x): ...; break
+        found = False                      for x in xs:                         r = _first(xs)   # returns x or _NONE
+        for x in xs:                           if p(x): ...; break              if r is _NONE: ...
             if p(x): found = True; break   else:
         if not found: ...                      ...
 
-    so that both spellings answer path queries alike.  With no flags the product is the CFG itself.
+    so that all spellings answer path queries alike.  With no flags the product is the CFG itself.
     """
 
     def __init__(self, cfg: CFG):
         self.cfg = cfg
+        self._assign = {}        # nid -> (flag, abstract value | ("copy", src))
         self.flags = self._find_flags()
         self._succ = {}
         self._states = None
 
     def _find_flags(self):
         cfg = self.cfg
-        assigned = {}
         bad = set()
+        local = set()
         fn = cfg.fn
         if hasattr(fn, "args"):
             a = fn.args
@@ -395,6 +409,8 @@ class FlagCFG:
                 bad.add(a.vararg.arg)
             if a.kwarg:
                 bad.add(a.kwarg.arg)
+        plain = {}      # name -> [(nid, value ast)]
+        tested = set()
         for n in cfg.nodes.values():
             st = n.ast
             if st is None:
@@ -411,11 +427,8 @@ class FlagCFG:
             elif n.kind == "stmt":
                 if isinstance(st, ast.Assign):
                     for t in st.targets:
-                        if isinstance(t, ast.Name):
-                            if isinstance(st.value, ast.Constant) and isinstance(st.value.value, bool) and len(st.targets) == 1:
-                                assigned.setdefault(t.id, []).append(n.id)
-                            else:
-                                bad.add(t.id)
+                        if isinstance(t, ast.Name) and len(st.targets) == 1:
+                            plain.setdefault(t.id, []).append((n.id, st.value))
                         else:
                             bad.update(A.target_names(t))
                 elif isinstance(st, (ast.AugAssign, ast.AnnAssign)):
@@ -430,10 +443,73 @@ class FlagCFG:
                 for x in A.walk(st):
                     if isinstance(x, ast.NamedExpr):
                         bad.add(x.target.id)
-        return sorted(f for f in assigned if f not in bad)
+                ft = _flag_tests(st)
+                if ft is not None:
+                    tested.add(ft[0])
+        local = set(plain) | bad
+
+        def absval(v):
+            if isinstance(v, ast.Constant) and isinstance(v.value, bool):
+                return bool(v.value)
+            if isinstance(v, ast.Constant) and v.value is None:
+                return ("tok", "None")
+            if isinstance(v, ast.Name):
+                if v.id in plain and v.id not in bad:
+                    return ("copy", v.id)
+                if v.id not in local:
+                    return ("tok", v.id)
+            return OTHER
+        cand = {f for f in plain if f not in bad}
+        # follow copies backwards from the tested names
+        want = {f for f in tested if f in cand}
+        grew = True
+        while grew:
+            grew = False
+            for f in list(want):
+                for _nid, v in plain[f]:
+                    av = absval(v)
+                    if isinstance(av, tuple) and av[0] == "copy" and av[1] in cand and av[1] not in want:
+                        want.add(av[1])
+                        grew = True
+
+        def informative(f, seen=()):
+            for _nid, v in plain[f]:
+                av = absval(v)
+                if av is True or av is False or (isinstance(av, tuple) and av[0] == "tok"):
+                    return True
+                if isinstance(av, tuple) and av[0] == "copy" and av[1] in want and av[1] not in seen and informative(av[1], seen + (f,)):
+                    return True
+            return False
+        flags = sorted(f for f in want if informative(f))
+        for f in flags:
+            for nid, v in plain[f]:
+                av = absval(v)
+                if isinstance(av, tuple) and av[0] == "copy" and av[1] not in flags:
+                    av = OTHER
+                self._assign[nid] = (f, av)
+        return flags
+
+    def _decide(self, val, kind, arg):
+        """truth value of the test on a flag holding abstract value val, or None if unknown"""
+        if val is None:
+            return None
+        if kind == "truth":
+            if val is True or val is False:
+                return val
+            if isinstance(val, tuple) and val[0] == "tok":
+                return False if val[1] == "None" else None
+            return None
+        # kind == "is"
+        if isinstance(val, tuple) and val[0] == "tok":
+            return val[1] == arg
+        if val is True or val is False:
+            return False
+        if val == OTHER:
+            return None if arg == "None" else False
+        return None
 
     def _step(self, state):
-        """successor states of (nid, env); env is a tuple aligned with self.flags of True/False/None"""
+        """successor states of (nid, env); env is a tuple aligned with self.flags of abstract values (None = unknown)"""
         if state in self._succ:
             return self._succ[state]
         nid, env = state
@@ -441,10 +517,12 @@ class FlagCFG:
         n = cfg.nodes[nid]
         out = []
         env2 = env
-        if n.kind == "stmt" and isinstance(n.ast, ast.Assign) and len(n.ast.targets) == 1 and isinstance(n.ast.targets[0], ast.Name) \
-                and n.ast.targets[0].id in self.flags and isinstance(n.ast.value, ast.Constant):
-            i = self.flags.index(n.ast.targets[0].id)
-            env2 = env[:i] + (bool(n.ast.value.value),) + env[i + 1:]
+        if nid in self._assign:
+            f, av = self._assign[nid]
+            i = self.flags.index(f)
+            if isinstance(av, tuple) and av[0] == "copy":
+                av = env[self.flags.index(av[1])]
+            env2 = env[:i] + (av,) + env[i + 1:]
         for s in cfg.g.successors(nid):
             kind = cfg.g[nid][s]["kind"]
             sn = cfg.nodes[s]
@@ -452,9 +530,10 @@ class FlagCFG:
             if n.kind == "test" and sn.kind in ("T", "F") and sn.of == nid:
                 ft = _flag_tests(n.ast)
                 if ft is not None and ft[0] in self.flags:
-                    val = env[self.flags.index(ft[0])]
-                    if val is not None:
-                        holds = (val == ft[1])
+                    holds = self._decide(env[self.flags.index(ft[0])], ft[1], ft[2])
+                    if holds is not None:
+                        if not ft[3]:
+                            holds = not holds
                         if (sn.kind == "T") != holds:
                             continue
             out.append(((s, e), kind))
